@@ -18,13 +18,14 @@ Moves == {Pass}
 ValidMove(m) == m.move = "corrupt" => m.field \in Fields(m.msg)
 
 Scenarios ==
-  {[peer |-> "honest", impl |-> "litep2p", trole |-> "both", pv |-> "none", mitm |-> m, dialed |-> "none", chunk |-> c] :
+  {[peer |-> "honest", impl |-> "litep2p", trole |-> "both", pv |-> "none", mitm |-> m, dialed |-> "none", dialedForm |-> "none", chunk |-> c] :
       m \in {x \in Moves : ValidMove(x)}, c \in Chunks}
-  \cup {[peer |-> "honest", impl |-> "libp2p", trole |-> r, pv |-> "none", mitm |-> m, dialed |-> "none", chunk |-> c] :
+  \cup {[peer |-> "honest", impl |-> "libp2p", trole |-> r, pv |-> "none", mitm |-> m, dialed |-> "none", dialedForm |-> "none", chunk |-> c] :
       r \in {"dialer", "listener"}, m \in {x \in Moves : ValidMove(x)}, c \in Chunks}
-  \cup {[peer |-> "honest", impl |-> "litep2p", trole |-> "dialer", pv |-> "none", mitm |-> Pass, dialed |-> dl, chunk |-> "whole"] :
-      dl \in {"B", "C"}}
-  \cup {[peer |-> "rogue", impl |-> "snow", trole |-> r, pv |-> pv, mitm |-> Pass, dialed |-> "none", chunk |-> c] :
+  \* dialed-peer expectations: the right key / another key, each as inline and as SHA-256-form peer id
+  \cup {[peer |-> "honest", impl |-> "litep2p", trole |-> "dialer", pv |-> "none", mitm |-> Pass, dialed |-> dl, dialedForm |-> f, chunk |-> "whole"] :
+      dl \in {"B", "C"}, f \in {"inline", "sha256"}}
+  \cup {[peer |-> "rogue", impl |-> "snow", trole |-> r, pv |-> pv, mitm |-> Pass, dialed |-> "none", dialedForm |-> "none", chunk |-> c] :
       r \in {"dialer", "listener"}, pv \in RoguePayloads, c \in Chunks}
 
 VARIABLES sc, pc, d, l, wire, m1
@@ -77,7 +78,7 @@ Auth == Done => \A side \in {"d", "l"} : (Honest(side) /\ Ep(side).st = "ok") =>
   /\ ep.pl.sig.by = IdOf(sc, o)                               \* ... and signed ...
   /\ ep.pl.sig.over = <<"prefix", StaticOf(sc, o)>>           \* ... the static key of this very session
   /\ ep.rs = StaticOf(sc, o)
-  /\ (side = "d" /\ sc.dialed # "none" => sc.dialed = ep.peer)
+  /\ (side = "d" /\ sc.dialed # "none" => sc.dialed = ep.peer /\ sc.dialedForm = "inline")   \* the dialed id is the proven id
   /\ (sc.mitm.msg = 0 \/ (side = "d" /\ sc.mitm.msg = 3))    \* no altered byte it could have seen
 NoHang == Done => \A side \in {"d", "l"} : Ep(side).st # "run"
 Agreement == Done /\ d.st = "ok" /\ l.st = "ok" => d.ss = l.ss
